@@ -30,8 +30,27 @@
 (* property makes persistent on the instance is NONE; a reply, once returned, belongs to the       *)
 (* caller (ReplyStable).                                                                           *)
 (*                                                                                                *)
+(* START-UP.  The signer learns the domain TYPES (and SLOTS_PER_EPOCH) once, from the spec map the  *)
+(* beacon node hands to New().  That map is an input of the environment per instance (`boot`):     *)
+(* every key may be listed with a value of the right Go type, be ABSENT (a node of an earlier fork *)
+(* does not list the sync committee domain types; DOMAIN_APPLICATION_BUILDER belongs to the        *)
+(* builder specification and is not part of the consensus configuration; DOMAIN_BLOB_SIDECAR was   *)
+(* dropped from the final Deneb specification), be listed with a value of ANOTHER Go type, or the  *)
+(* whole lookup may fail; the chain's SLOTS_PER_EPOCH differs between networks.  The property does *)
+(* not change with the start-up input: per signing operation, EITHER the service refuses (error,   *)
+(* no signature) OR the signature is over the signing root with the domain type the                *)
+(* SPECIFICATIONS define for that duty - the constant table DomainTypeBytes below, taken from the  *)
+(* consensus and builder specifications, not from the implementation, its mock or the node.  A     *)
+(* service that knows a constant on its own (a built-in default for a key the node does not list)  *)
+(* is legal exactly if the constant is the specifications' value (control model SignerBoot.tla).   *)
+(*                                                                                                *)
 (* One action per interface call of the Go code (r = the request it belongs to):                  *)
+(*   Start(ok)        New(): specProvider.Spec is called; the service comes up, or refuses to     *)
+(*                    (only when the node's map is not complete)                                  *)
 (*   Call(r, c)       a duty service calls one of the Sign* methods                               *)
+(*   Refuse(r)        the call returns an error and no signature WITHOUT a failure of the         *)
+(*                    environment: allowed when the start-up input lacks what the operation needs *)
+(*                    (or the call carries nothing that can be signed)                            *)
 (*   FetchDomain(r)   domainProvider.Domain / GenesisDomain is called (trace event DomainReq)     *)
 (*   RefetchDomain(r) the same request again (the per-account path of SignBeaconAttestations)     *)
 (*   DomainResp(r)    the provider's reply arrives (may be an error), arbitrarily late            *)
@@ -74,11 +93,74 @@ SigSpec == [
   aggregate_and_proof |-> [dom |-> "DOMAIN_AGGREGATE_AND_PROOF",            epoch |-> "slot",    msg |-> "AggregateAndProof",           batch |-> FALSE],
   sync_root           |-> [dom |-> "DOMAIN_SYNC_COMMITTEE",                 epoch |-> "given",   msg |-> "BlockRoot",                   batch |-> TRUE],
   contribution        |-> [dom |-> "DOMAIN_CONTRIBUTION_AND_PROOF",         epoch |-> "slot",    msg |-> "ContributionAndProof",        batch |-> TRUE],
+  blob_sidecar        |-> [dom |-> "DOMAIN_BLOB_SIDECAR",                   epoch |-> "slot",    msg |-> "BlobSidecarRoot",             batch |-> FALSE],
   registration        |-> [dom |-> "DOMAIN_APPLICATION_BUILDER",            epoch |-> "genesis", msg |-> "ValidatorRegistrationV1",     batch |-> FALSE]
 ]
 
 Ops == DOMAIN SigSpec
 BatchOps == {o \in Ops : SigSpec[o].batch}
+
+(* The domain types, as the SPECIFICATIONS define them (4 bytes, in the order they are written into *)
+(* the domain):                                                                                   *)
+(*   consensus-specs phase0/beacon-chain.md "Domain types": DOMAIN_BEACON_PROPOSER 0x00000000,     *)
+(*     DOMAIN_BEACON_ATTESTER 0x01000000, DOMAIN_RANDAO 0x02000000, DOMAIN_DEPOSIT 0x03000000,     *)
+(*     DOMAIN_VOLUNTARY_EXIT 0x04000000, DOMAIN_SELECTION_PROOF 0x05000000,                        *)
+(*     DOMAIN_AGGREGATE_AND_PROOF 0x06000000;                                                      *)
+(*   altair/beacon-chain.md: DOMAIN_SYNC_COMMITTEE 0x07000000,                                     *)
+(*     DOMAIN_SYNC_COMMITTEE_SELECTION_PROOF 0x08000000, DOMAIN_CONTRIBUTION_AND_PROOF 0x09000000; *)
+(*   capella/beacon-chain.md: DOMAIN_BLS_TO_EXECUTION_CHANGE 0x0A000000;                           *)
+(*   deneb (drafts up to v1.4.0-beta.1) validator.md: DOMAIN_BLOB_SIDECAR 0x0B000000;              *)
+(*   builder-specs specs/bellatrix/builder.md "Domain types": DOMAIN_APPLICATION_BUILDER           *)
+(*     0x00000001 - the ONE type whose non-zero byte is the last one.                              *)
+(* This table is the oracle: the scenarios carry its rows to the driver, which builds the domain   *)
+(* and the signing root every returned signature must verify against from THEM, whatever the       *)
+(* service was handed at start-up.                                                                 *)
+DomainTypeBytes == [
+  DOMAIN_BEACON_PROPOSER                |-> <<0, 0, 0, 0>>,
+  DOMAIN_BEACON_ATTESTER                |-> <<1, 0, 0, 0>>,
+  DOMAIN_RANDAO                         |-> <<2, 0, 0, 0>>,
+  DOMAIN_DEPOSIT                        |-> <<3, 0, 0, 0>>,
+  DOMAIN_VOLUNTARY_EXIT                 |-> <<4, 0, 0, 0>>,
+  DOMAIN_SELECTION_PROOF                |-> <<5, 0, 0, 0>>,
+  DOMAIN_AGGREGATE_AND_PROOF            |-> <<6, 0, 0, 0>>,
+  DOMAIN_SYNC_COMMITTEE                 |-> <<7, 0, 0, 0>>,
+  DOMAIN_SYNC_COMMITTEE_SELECTION_PROOF |-> <<8, 0, 0, 0>>,
+  DOMAIN_CONTRIBUTION_AND_PROOF         |-> <<9, 0, 0, 0>>,
+  DOMAIN_BLS_TO_EXECUTION_CHANGE        |-> <<10, 0, 0, 0>>,
+  DOMAIN_BLOB_SIDECAR                   |-> <<11, 0, 0, 0>>,
+  DOMAIN_APPLICATION_BUILDER            |-> <<0, 0, 0, 1>>
+]
+
+TypeOf(o) == DomainTypeBytes[SigSpec[o].dom]
+
+-----------------------------------------------------------------------------
+(* The start-up input of one service instance (`boot`): what the beacon node's spec map holds for *)
+(* every key the signer can use, and the chain's slots per epoch.                                  *)
+(*   keys[k]  "ok"      listed, value of the Go type the signer expects (phase0.DomainType /       *)
+(*                      uint64) - and then it IS the specifications' value (Env_NodeValuesRight)   *)
+(*            "absent"  not listed                                                                *)
+(*            "badtype" listed with a value of another Go type (string, []byte, ...)               *)
+(*   specerr  the lookup itself fails (Spec() returns an error): nothing is usable                 *)
+(*   spe      SLOTS_PER_EPOCH of the chain (32 mainnet preset, 8 minimal preset)                   *)
+SpecKeys == {"SLOTS_PER_EPOCH"} \cup {SigSpec[o].dom : o \in Ops}
+KeyModes == {"ok", "absent", "badtype"}
+
+\* keys that a node of an earlier fork / without the builder or blob additions does not list
+LaterKeys == {"DOMAIN_SYNC_COMMITTEE", "DOMAIN_SYNC_COMMITTEE_SELECTION_PROOF", "DOMAIN_CONTRIBUTION_AND_PROOF",
+              "DOMAIN_APPLICATION_BUILDER", "DOMAIN_BLOB_SIDECAR"}
+
+BootOf(f, n) == [keys |-> [k \in SpecKeys |-> IF k \in DOMAIN f THEN f[k] ELSE "ok"], spe |-> n, specerr |-> FALSE]
+NoKeys == [k \in {} |-> "ok"]
+CompleteBoot(n) == BootOf(NoKeys, n)
+SpecErrBoot(n) == [CompleteBoot(n) EXCEPT !.specerr = TRUE]
+\* every assignment of `modes` to the keys K, the others listed properly
+BootsOver(K, modes, n) == {BootOf(f, n) : f \in [K -> modes]}
+\* one key not usable, in either way
+BootsOneBroken(K, n) == {BootOf(k :> m, n) : k \in K, m \in {"absent", "badtype"}}
+
+\* the start-up inputs of a configuration; the default is the complete map (cfg files widen it with
+\* `Boots <- ...`)
+Boots == {CompleteBoot(SlotsPerEpoch)}
 
 \* messages whose content differs per position of a batch (committee index, subcommittee index,
 \* aggregator index); the others sign the same root for every account of the batch
@@ -129,20 +211,47 @@ MergeSplitLaw(kinds, sig(_)) ==
         = [i \in 1..Len(kinds) |-> sig(i)]
 
 -----------------------------------------------------------------------------
+VARIABLES fork,      \* the epoch at which the chain of this history forks
+          boot,      \* the start-up input of this service instance (never changes)
+          svc,       \* the service instance: "new" (New() not called yet) | "up" | "nostart" (New() refused)
+          pc,        \* per request: "idle" | "called" | "waiting" (provider call outstanding) | "sign" |
+                     \*              "insign" (signer call outstanding) | "failed" | "done" | "error"
+          req,       \* per request: the request
+          domreqs,   \* per request: the domain requests it made so far (sequence)
+          dom,       \* per request: the domain value it holds (latest reply / recalled), NoDomain before
+          insign,    \* per request: the signer call in flight: items handed (in the order handed) and the
+                     \*              positions of the reply its signatures will be put at; NoSign outside a call
+          signed,    \* per request: function positions signed so far -> abstract signature (or Absent)
+          result     \* per request: the reply: sequence of abstract signatures, <<>> before / on error
+
+bootvars == <<boot, svc>>
+vars == <<fork, boot, svc, pc, req, domreqs, dom, insign, signed, result>>
+
+\* what the service can have learnt at start-up
+Usable(k) == (~boot.specerr) /\ boot.keys[k] = "ok"
+\* what an operation needs from the start-up input: its domain type, and the slots per epoch where the epoch
+\* of the domain is derived from a slot
+NeedKeys(o) == {SigSpec[o].dom} \cup (IF SigSpec[o].epoch = "slot" THEN {"SLOTS_PER_EPOCH"} ELSE {})
+CanServe(o) == \A k \in NeedKeys(o) : Usable(k)
+
+-----------------------------------------------------------------------------
 (* Requests.                                                                                      *)
 \* c = [op, slot, epoch, kinds, fail, failidx]
 \*   slot    the slot argument (attestation slot, proposal slot, contribution.slot, ...)
 \*   epoch   the epoch argument of sync_root (ignored by the others)
 \*   fail    "none" | "domain" (domain provider errors) | "signer" (a signer call errors) |
-\*           "nilsig" (the multi-signer returns no signature for position failidx)
-EpochOfSlot(s) == s \div SlotsPerEpoch
+\*           "nilsig" (the multi-signer returns no signature for position failidx) |
+\*           "input" (the call carries nothing that can be signed: no registration, a registration
+\*           without content, a registration of a version no specification defines)
+\* the chain's slots per epoch is part of the instance's start-up input
+EpochOfSlot(s) == s \div boot.spe
 
 DutyEpoch(c) == CASE SigSpec[c.op].epoch = "slot"    -> EpochOfSlot(c.slot)
                   [] SigSpec[c.op].epoch = "given"   -> c.epoch
                   [] SigSpec[c.op].epoch = "genesis" -> -1
 
 \* the request the signer must make to the domain provider
-DomainReq(c) == [type    |-> SigSpec[c.op].dom,
+DomainReq(c) == [type    |-> TypeOf(c.op),
                  genesis |-> SigSpec[c.op].epoch = "genesis",
                  epoch   |-> DutyEpoch(c)]
 
@@ -160,7 +269,7 @@ ForkVersion(e, f) == IF e < f THEN "old" ELSE "new"
 
 \* the domain VALUE the chain defines for domain request q
 DomainValue(q, f) == [type |-> q.type, ver |-> IF q.genesis THEN "genesis" ELSE ForkVersion(q.epoch, f)]
-NoDomain == [type |-> "none", ver |-> "none"]
+NoDomain == [type |-> <<>>, ver |-> "none"]
 
 \* an abstract signature: who (the account at position i of request q, by the key that must verify it),
 \* what, under which domain value
@@ -174,39 +283,28 @@ ValidCall(c) ==
     /\ c.op \in Ops
     /\ Len(c.kinds) >= 1
     /\ (~SigSpec[c.op].batch) => Len(c.kinds) = 1
-    /\ c.fail \in {"none", "domain", "signer", "nilsig"}
+    /\ c.fail \in {"none", "domain", "signer", "nilsig", "input"}
+    /\ c.fail = "input" => c.op = "registration"
     /\ c.fail = "nilsig" => /\ SigSpec[c.op].batch
                             /\ \A i \in 1..Len(c.kinds) : IsProtecting(c.kinds[i])
                             /\ c.failidx \in 1..Len(c.kinds)
     /\ c.fail # "nilsig" => c.failidx = 0
 
-Calls == {c \in [op : Ops, slot : Slots, epoch : GivenEpochs, kinds : EnvBatches(MaxBatch),
-                 fail : {"none", "domain", "signer", "nilsig"}, failidx : 0..MaxBatch] :
+CallsWith(batches, fails) ==
+         {c \in [op : Ops, slot : Slots, epoch : GivenEpochs, kinds : batches,
+                 fail : fails, failidx : 0..MaxBatch] :
             /\ ValidCall(c)
             /\ (SigSpec[c.op].epoch # "given") => c.epoch = CHOOSE e \in GivenEpochs : TRUE
             /\ (SigSpec[c.op].epoch # "slot") => c.slot = CHOOSE s \in Slots : TRUE}
+Calls == CallsWith(EnvBatches(MaxBatch), {"none", "domain", "signer", "nilsig", "input"})
 
 NoCall == [op |-> "none"]
 
 -----------------------------------------------------------------------------
-VARIABLES fork,      \* the epoch at which the chain of this history forks
-          pc,        \* per request: "idle" | "called" | "waiting" (provider call outstanding) | "sign" |
-                     \*              "insign" (signer call outstanding) | "failed" | "done" | "error"
-          req,       \* per request: the request
-          domreqs,   \* per request: the domain requests it made so far (sequence)
-          dom,       \* per request: the domain value it holds (latest reply / recalled), NoDomain before
-          insign,    \* per request: the signer call in flight: items handed (in the order handed) and the
-                     \*              positions of the reply its signatures will be put at; NoSign outside a call
-          signed,    \* per request: function positions signed so far -> abstract signature (or Absent)
-          result     \* per request: the reply: sequence of abstract signatures, <<>> before / on error
-
-vars == <<fork, pc, req, domreqs, dom, insign, signed, result>>
-
 EmptyFn == [i \in {} |-> Absent]
 NoSign == [items |-> <<>>, put |-> <<>>]
 
-Init ==
-    /\ fork \in ForkEpochs
+InitRequests ==
     /\ pc = [r \in Rids |-> "idle"]
     /\ req = [r \in Rids |-> NoCall]
     /\ domreqs = [r \in Rids |-> <<>>]
@@ -215,28 +313,61 @@ Init ==
     /\ signed = [r \in Rids |-> EmptyFn]
     /\ result = [r \in Rids |-> <<>>]
 
+Init ==
+    /\ fork \in ForkEpochs
+    /\ boot \in Boots
+    /\ svc = "new"
+    /\ InitRequests
+
+\* New(): the service asks the node for its spec map (specProvider.Spec) and comes up - or refuses to,
+\* which it may only when the map is not complete (a service that never starts signs nothing wrong, but
+\* nothing would be checked either).  Coming up with an incomplete map is allowed: what then matters is
+\* what the operations do.
+Start(ok) ==
+    /\ svc = "new"
+    /\ ok \/ \E k \in SpecKeys : ~Usable(k)
+    /\ svc' = IF ok THEN "up" ELSE "nostart"
+    /\ UNCHANGED <<fork, boot, pc, req, domreqs, dom, insign, signed, result>>
+
 \* requests are numbered in the order in which they are made
 Call(r, c) ==
+    /\ svc = "up"
     /\ pc[r] = "idle"
     /\ \A q \in Rids : q < r => pc[q] # "idle"
     /\ ValidCall(c)
     /\ pc' = [pc EXCEPT ![r] = "called"]
     /\ req' = [req EXCEPT ![r] = c]
-    /\ UNCHANGED <<fork, domreqs, dom, insign, signed, result>>
+    /\ UNCHANGED <<fork, boot, svc, domreqs, dom, insign, signed, result>>
 
-\* the request reaches the domain provider ...
-FetchDomain(r) ==
+\* the request reaches the domain provider: the general step - WHICH domain is asked for is written down,
+\* not assumed (used by the control model SignerBoot.tla) ...
+FetchDomainWith(r, q) ==
     /\ pc[r] = "called"
-    /\ domreqs' = [domreqs EXCEPT ![r] = Append(@, DomainReq(req[r]))]
+    /\ domreqs' = [domreqs EXCEPT ![r] = Append(@, q)]
     /\ pc' = [pc EXCEPT ![r] = "waiting"]
-    /\ UNCHANGED <<fork, req, dom, insign, signed, result>>
+    /\ UNCHANGED <<fork, boot, svc, req, dom, insign, signed, result>>
+
+\* ... the protocol: the domain type the SPECIFICATIONS define for the duty, at the duty's epoch - whatever the
+\* start-up input was (a service that does not know the type refuses instead: Refuse)
+FetchDomain(r) == FetchDomainWith(r, DomainReq(req[r]))
+
+\* the call returns an error and no signature although nothing in the environment failed: the instance was
+\* not given what the operation needs at start-up (and does not know it on its own), or the call carries
+\* nothing that can be signed.  Whether an instance that lacks the key refuses or knows the constant is its
+\* own business; what it must not do is sign with anything else.
+Refuse(r) ==
+    /\ pc[r] \in {"called", "sign"}
+    /\ (~CanServe(req[r].op)) \/ req[r].fail = "input"
+    /\ pc' = [pc EXCEPT ![r] = "error"]
+    /\ result' = [result EXCEPT ![r] = <<>>]
+    /\ UNCHANGED <<fork, boot, svc, req, domreqs, dom, insign, signed>>
 
 RefetchDomain(r) ==
     /\ pc[r] = "sign"
     /\ Len(domreqs[r]) <= Len(req[r].kinds)
     /\ domreqs' = [domreqs EXCEPT ![r] = Append(@, DomainReq(req[r]))]
     /\ pc' = [pc EXCEPT ![r] = "waiting"]
-    /\ UNCHANGED <<fork, req, dom, insign, signed, result>>
+    /\ UNCHANGED <<fork, boot, svc, req, dom, insign, signed, result>>
 
 \* ... whose reply arrives whenever it pleases: every action of every other request is enabled in
 \* between.  The reply is the chain's domain for the request that was made.
@@ -247,7 +378,7 @@ DomainResp(r) ==
             /\ UNCHANGED dom
        ELSE /\ pc' = [pc EXCEPT ![r] = "sign"]
             /\ dom' = [dom EXCEPT ![r] = DomainValue(domreqs[r][Len(domreqs[r])], fork)]
-    /\ UNCHANGED <<fork, req, domreqs, insign, signed, result>>
+    /\ UNCHANGED <<fork, boot, svc, req, domreqs, insign, signed, result>>
 
 \* the domain is produced from memory instead: transparent or not at all - it is the chain's domain for
 \* the type and epoch of THIS request, whatever was asked, answered or stored for other requests
@@ -255,7 +386,7 @@ Recall(r) ==
     /\ pc[r] = "called"
     /\ pc' = [pc EXCEPT ![r] = "sign"]
     /\ dom' = [dom EXCEPT ![r] = DomainValue(DomainReq(req[r]), fork)]
-    /\ UNCHANGED <<fork, req, domreqs, insign, signed, result>>
+    /\ UNCHANGED <<fork, boot, svc, req, domreqs, insign, signed, result>>
 
 \* the signature a signer returns for item it when it is handed the domain d
 Produced(it, d) ==
@@ -270,7 +401,7 @@ OwnItems(r, idx) == [j \in 1..Len(idx) |-> Item(r, idx[j])]
 \* request r's reply
 SignStartWith(r, items, put) ==
     /\ pc[r] = "sign"
-    /\ req[r].fail # "signer"
+    /\ req[r].fail \notin {"signer", "input"}
     /\ Len(put) >= 1
     /\ Len(items) = Len(put)
     /\ NoRepeats(put)
@@ -280,7 +411,7 @@ SignStartWith(r, items, put) ==
                                  /\ items[j].pos \in 1..Len(req[items[j].rid].kinds)
     /\ insign' = [insign EXCEPT ![r] = [items |-> items, put |-> put]]
     /\ pc' = [pc EXCEPT ![r] = "insign"]
-    /\ UNCHANGED <<fork, req, domreqs, dom, signed, result>>
+    /\ UNCHANGED <<fork, boot, svc, req, domreqs, dom, signed, result>>
 
 \* the protocol: a signer call of request r covers positions idx (a sequence without repetitions) of r -
 \* the property does not prescribe how positions are grouped into calls - and is handed r's own accounts
@@ -298,7 +429,7 @@ SignEnd(r) ==
                         ELSE sigs[CHOOSE j \in 1..Len(c.put) : c.put[j] = i]]]   \* the index map
     /\ insign' = [insign EXCEPT ![r] = NoSign]
     /\ pc' = [pc EXCEPT ![r] = "sign"]
-    /\ UNCHANGED <<fork, req, domreqs, dom, result>>
+    /\ UNCHANGED <<fork, boot, svc, req, domreqs, dom, result>>
 
 \* what the code does: the two groups of the split, one call (or one loop of calls) each
 SignGroupStart(r, g) ==
@@ -311,7 +442,7 @@ SignGroupStart(r, g) ==
 \* this step (NextAtomic); every configuration with more than one request uses the split one (Next).
 SignSome(r, idx) ==
     /\ pc[r] = "sign"
-    /\ req[r].fail # "signer"
+    /\ req[r].fail \notin {"signer", "input"}
     /\ Len(idx) >= 1
     /\ NoRepeats(idx)
     /\ Range(idx) \subseteq (1..Len(req[r].kinds)) \ DOMAIN signed[r]
@@ -319,7 +450,7 @@ SignSome(r, idx) ==
        IN signed' = [signed EXCEPT ![r] = [i \in DOMAIN signed[r] \cup Range(idx) |->
                         IF i \in DOMAIN signed[r] THEN signed[r][i]
                         ELSE sigs[CHOOSE j \in 1..Len(idx) : idx[j] = i]]]
-    /\ UNCHANGED <<fork, pc, req, domreqs, dom, insign, result>>
+    /\ UNCHANGED <<fork, boot, svc, pc, req, domreqs, dom, insign, result>>
 
 SignGroup(r, g) ==
     /\ pc[r] = "sign"
@@ -330,25 +461,26 @@ SignerFails(r) ==
     /\ pc[r] = "sign"
     /\ req[r].fail = "signer"
     /\ pc' = [pc EXCEPT ![r] = "failed"]
-    /\ UNCHANGED <<fork, req, domreqs, dom, insign, signed, result>>
+    /\ UNCHANGED <<fork, boot, svc, req, domreqs, dom, insign, signed, result>>
 
 Return(r) ==
     /\ pc[r] = "sign"
     /\ DOMAIN signed[r] = 1..Len(req[r].kinds)
     /\ result' = [result EXCEPT ![r] = [i \in 1..Len(req[r].kinds) |-> signed[r][i]]]
     /\ pc' = [pc EXCEPT ![r] = "done"]
-    /\ UNCHANGED <<fork, req, domreqs, dom, insign, signed>>
+    /\ UNCHANGED <<fork, boot, svc, req, domreqs, dom, insign, signed>>
 
 ReturnErr(r) ==
     /\ pc[r] = "failed"
     /\ result' = [result EXCEPT ![r] = <<>>]
     /\ pc' = [pc EXCEPT ![r] = "error"]
-    /\ UNCHANGED <<fork, req, domreqs, dom, insign, signed>>
+    /\ UNCHANGED <<fork, boot, svc, req, domreqs, dom, insign, signed>>
 
 Next ==
+    \/ \E ok \in BOOLEAN : Start(ok)
     \/ \E r \in Rids : pc[r] = "idle" /\ \E c \in Calls : Call(r, c)      \* (guard first: Calls is large)
     \/ \E r \in Rids :
-          \/ FetchDomain(r) \/ RefetchDomain(r) \/ DomainResp(r) \/ Recall(r)
+          \/ FetchDomain(r) \/ RefetchDomain(r) \/ DomainResp(r) \/ Recall(r) \/ Refuse(r)
           \/ \E g \in {1, 2} : SignGroupStart(r, g)
           \/ SignEnd(r)
           \/ SignerFails(r)
@@ -357,9 +489,10 @@ Next ==
 Spec == Init /\ [][Next]_vars
 
 NextAtomic ==
+    \/ \E ok \in BOOLEAN : Start(ok)
     \/ \E r \in Rids : pc[r] = "idle" /\ \E c \in Calls : Call(r, c)      \* (guard first: Calls is large)
     \/ \E r \in Rids :
-          \/ FetchDomain(r) \/ RefetchDomain(r) \/ DomainResp(r) \/ Recall(r)
+          \/ FetchDomain(r) \/ RefetchDomain(r) \/ DomainResp(r) \/ Recall(r) \/ Refuse(r)
           \/ \E g \in {1, 2} : SignGroup(r, g)
           \/ SignerFails(r)
           \/ Return(r) \/ ReturnErr(r)
@@ -369,27 +502,54 @@ SpecAtomic == Init /\ [][NextAtomic]_vars
 -----------------------------------------------------------------------------
 TypeOK ==
     /\ fork \in Int
+    /\ svc \in {"new", "up", "nostart"}
+    /\ boot.spe \in Nat \ {0}
+    /\ boot.specerr \in BOOLEAN
+    /\ \A k \in SpecKeys : boot.keys[k] \in KeyModes
     /\ \A r \in Rids :
           /\ pc[r] \in {"idle", "called", "waiting", "sign", "insign", "failed", "done", "error"}
           /\ DOMAIN signed[r] \subseteq 1..MaxBatch
           /\ (pc[r] = "insign") = (insign[r] # NoSign)
 
-\* C06: the domain asked for is the domain type of the duty at the fork of the duty's epoch (or the
-\* genesis domain for builder registrations), and nothing else is ever asked for
+\* the domain type of every operation once more, written out byte by byte and independently of the tables
+\* above (TableSane in MC_Signer.tla: TLC checks that the two renderings agree)
+SpecType(op) ==
+    CASE op \in {"attestation", "attestations"} -> <<1, 0, 0, 0>>       \* DOMAIN_BEACON_ATTESTER       0x01000000
+      [] op = "proposal"                        -> <<0, 0, 0, 0>>       \* DOMAIN_BEACON_PROPOSER       0x00000000
+      [] op = "randao"                          -> <<2, 0, 0, 0>>       \* DOMAIN_RANDAO                0x02000000
+      [] op = "slot_selection"                  -> <<5, 0, 0, 0>>       \* DOMAIN_SELECTION_PROOF       0x05000000
+      [] op = "aggregate_and_proof"             -> <<6, 0, 0, 0>>       \* DOMAIN_AGGREGATE_AND_PROOF   0x06000000
+      [] op = "sync_root"                       -> <<7, 0, 0, 0>>       \* DOMAIN_SYNC_COMMITTEE        0x07000000
+      [] op = "sync_selection"                  -> <<8, 0, 0, 0>>       \* DOMAIN_SYNC_COMMITTEE_SELECTION_PROOF
+      [] op = "contribution"                    -> <<9, 0, 0, 0>>       \* DOMAIN_CONTRIBUTION_AND_PROOF 0x09000000
+      [] op = "blob_sidecar"                    -> <<11, 0, 0, 0>>      \* DOMAIN_BLOB_SIDECAR          0x0B000000
+      [] op = "registration"                    -> <<0, 0, 0, 1>>       \* DOMAIN_APPLICATION_BUILDER   0x00000001
+
+\* C06: the domain asked for is the domain type THE SPECIFICATIONS define for the duty - whatever the
+\* instance was or was not handed at start-up - at the fork of the duty's epoch (or the genesis domain for
+\* builder registrations), and nothing else is ever asked for
 DomainRight ==
     \A r \in Rids : \A k \in 1..Len(domreqs[r]) :
-        /\ domreqs[r][k].type = SigSpec[req[r].op].dom
+        /\ domreqs[r][k].type = SpecType(req[r].op)
         /\ domreqs[r][k].genesis = (req[r].op = "registration")
         /\ domreqs[r][k].epoch = (CASE req[r].op = "registration" -> -1
                                     [] req[r].op = "sync_root" -> req[r].epoch
-                                    [] OTHER -> req[r].slot \div SlotsPerEpoch)
+                                    [] OTHER -> req[r].slot \div boot.spe)
 
 \* the chain's domain for request r, written without the helper operators
 OwnDomain(r) ==
-    [type |-> SigSpec[req[r].op].dom,
+    [type |-> SpecType(req[r].op),
      ver  |-> CASE req[r].op = "registration" -> "genesis"
                 [] req[r].op = "sync_root" -> (IF req[r].epoch < fork THEN "old" ELSE "new")
-                [] OTHER -> (IF req[r].slot \div SlotsPerEpoch < fork THEN "old" ELSE "new")]
+                [] OTHER -> (IF req[r].slot \div boot.spe < fork THEN "old" ELSE "new")]
+
+\* C06 and the start-up input: an error without a failure of the environment has a cause - the instance was
+\* not handed what the operation needs (or the call carries nothing to sign); with a complete start-up input
+\* every request is served.  And nothing is served by an instance that did not come up.
+RefusedForCause ==
+    /\ \A r \in Rids : (pc[r] = "error" /\ req[r].fail \in {"none", "nilsig"}) => ~CanServe(req[r].op)
+    /\ (svc # "up") => \A r \in Rids : pc[r] = "idle"
+    /\ (svc = "nostart") => \E k \in SpecKeys : ~Usable(k)
 
 \* C06 over histories: the domain a request holds is a function of that request (and the chain) alone -
 \* no earlier or concurrent request, of whatever type or epoch, has any influence on it
